@@ -1,7 +1,9 @@
 package main
 
 import (
+	"fmt"
 	"go/token"
+	"go/types"
 
 	"golang.org/x/tools/go/ssa"
 )
@@ -21,9 +23,33 @@ func (concurrencyModel) selectI(g *VCGen, x *ssa.Select) {
 func (concurrencyModel) makeChan(g *VCGen, x *ssa.MakeChan) {
 	panic(unsupported("make(chan)"))
 }
+// receive: the value is arbitrary (sent by another thread); blocking is not modelled (partial correctness).
+// A receive from a nil channel blocks forever: the path ends there.
 func (concurrencyModel) recv(g *VCGen, x *ssa.UnOp) {
-	panic(unsupported("channel receive"))
+	ch := g.val(x.X)
+	if x.CommaOk {
+		et := x.X.Type().Underlying().(*types.Chan).Elem()
+		s := g.so.sortOf(et)
+		v := g.freshConst("recv!v", s)
+		ok := g.freshConst("recv!ok", "Bool")
+		sv := SpecVal{v, s, et}
+		g.rangeFact(sv)
+		g.assumeHere(g.allocFact(v, et, g.cur))
+		g.tuples[x] = []SpecVal{sv, {ok, "Bool", types.Typ[types.Bool]}}
+	} else {
+		sv := g.havocVal(x)
+		g.assumeHere(g.allocFact(sv.T, x.Type(), g.cur))
+	}
+	g.pathCond = and(g.pathCond, fmt.Sprintf("(not (= %s 0))", ch.T))
+	g.usedTrusted["channel receive yields an arbitrary value of the element type; blocking is not modelled (partial correctness)"] = true
 }
 func (concurrencyModel) closeChan(g *VCGen, c *ssa.CallCommon, pos token.Pos) {
 	panic(unsupported("close(chan)"))
+}
+
+func (concurrencyModel) lockOp(g *VCGen, op string, c *ssa.CallCommon, pos token.Pos) {
+	// evaluate the receiver (nil check etc.)
+	if len(c.Args) > 0 {
+		g.val(c.Args[0])
+	}
 }
